@@ -1,7 +1,7 @@
 (* C07 — Every string that is not a valid RFC 9535 query is rejected.  Statements only.
    The whole-language statement is kept visible and is NOT proved (partial): *)
 From Coq Require Import List NArith ZArith Bool.
-From JP Require Import Base Ast Peg Dec2Bin Known Build Concrete BuildFacts FragParse FragBuild FragWs RejectFacts RejectMore RejectRange RejectBlank.
+From JP Require Import Base Ast Peg Dec2Bin Known Build Concrete BuildFacts FragParse FragBuild FragWs GenParse GenBuild FilterParse FilterBuild RejectFacts RejectMore RejectRange RejectBlank RejectTyping.
 From JP.gen Require Import Grammar.
 Import ListNotations.
 
@@ -159,6 +159,36 @@ Theorem C07_blank_after_function_name_rejected : forall b w,
   parse_query ([36; 91; 63; 109; 97; 116; 99; 104]%N ++ b :: w ++ [40; 64; 44; 39; 97; 39; 41; 93]%N) = PErr.
 Proof. exact match_blank_rejected. Qed.
 Print Assumptions C07_blank_after_function_name_rejected.
+
+(* ---- ill-typed function calls, at string level.  The grammar accepts every call whatever the types of its arguments;
+   TestFunction::try_new and the position checks of parser.rs refuse.  For EVERY call f of the five RFC functions over
+   plain selectors whose arguments are themselves well-formed (RejectTyping.fn_refused): an argument of the wrong type
+   (a non-singular query or a LogicalType call where ValueType is declared, a literal or a call where NodesType is
+   declared), or a well-typed ValueType function (length, count, value) standing as a test -- the texts $[?f] and $[?!f]
+   are rejected ---- *)
+Theorem C07_illtyped_call_rejected : forall neg (f : xfn fsel),
+  fok fsel sel_ok f -> fn_refused fsel plain_good sel_ast f ->
+  parse_query (36%N :: 91%N :: 63%N :: (bang neg ++ ftext fsel sel_text f) ++ [93%N]) = PErr.
+Proof. exact illtyped_call_rejected. Qed.
+Print Assumptions C07_illtyped_call_rejected.
+
+(* the premises are satisfiable:  length(@.* )  (non-singular query as ValueType),  count(1)  (literal as NodesType),
+   match(@.a,@.* ),  and the well-typed  length(@.a)  as a test *)
+Example C07_illtyped_examples :
+  let qa := XAQuery fsel false [GShort fsel [97]%N] in
+  let qw := XAQuery fsel false [GDotWild fsel] in
+  fn_refused fsel plain_good sel_ast (XFn1 fsel FLength qw)
+  /\ fn_refused fsel plain_good sel_ast (XFn1 fsel FCount (XALit fsel (XInt 1%Z)))
+  /\ fn_refused fsel plain_good sel_ast (XFn2 fsel FMatch qa qw)
+  /\ fn_refused fsel plain_good sel_ast (XFn1 fsel FLength qa)
+  /\ ftext fsel sel_text (XFn2 fsel FMatch qa qw) = [109; 97; 116; 99; 104; 40; 64; 46; 97; 44; 64; 46; 42; 41]%N.
+Proof.
+  cbv zeta. repeat split.
+  - apply refused_arg1; [repeat constructor|reflexivity].
+  - apply refused_arg1; [cbn; unfold z_ok, MIN_VAL, MAX_VAL; split; discriminate|reflexivity].
+  - apply refused_arg2; [left; reflexivity|repeat constructor|repeat constructor|right; reflexivity].
+  - apply refused_value_fn; [split; [repeat constructor|reflexivity]|reflexivity].
+Qed.
 
 (* near-misses, evaluated inside Coq on the grammar of this run (a test, not the unbounded claim) *)
 Definition rejected (s : str) : bool := match parse_query s with PErr => true | _ => false end.
